@@ -26,6 +26,7 @@ RULES_DOC["X7"] = common.X7_DOC
 RULES_DOC["X4"] = common.X4_DOC
 RULES_DOC["X5"] = common.X5_DOC
 RULES_DOC["R6"] = "= C11.R6: a locker that blocked inside the rwlock's mutex or condition variable continues with the stream it was resumed on (the wait helpers write *pp_local back on every return)"
+RULES_DOC["R9"] = "= C06.R9: pool reference counts are exact for user-owned pools too (a stale num_scheds == 2 makes a later stream ignore a blocked locker and stop)"
 RULES_DOC["R8"] = "= C05.R4: the broadcast that releases lockers wakes the futex whenever ANY released waiter is an external thread or tasklet (the flag accumulates over the list)"
 RULES_DOC["R7"] = "= C06.R5: the scheduler serving a blocked locker's pool does not stop while the locker is blocked, for every shared access mode of the pool: the unlock that releases it pushes it to a pool that is still consumed"
 RULES_DOC["R5"] = "= C06.R1-R4 and C11.R10: a locker that blocks is counted on the pool it will be resumed on, and the condition wait re-locks with the stream it was resumed on (no stale copy of the caller's stream)"
@@ -432,3 +433,5 @@ def run(P, rep, tier):
     common.borrow(rep, P, C06.rule_R5, "R7")
     from . import C05
     common.borrow(rep, P, C05.rule_R4, "R8", active_wait=(getattr(rep, "variant", None) == "active_wait"))
+    from . import c06_refs
+    common.borrow(rep, P, c06_refs.rule_R9, "R9")
